@@ -26,6 +26,7 @@ type OracleResp struct {
 	OK      bool    `json:"ok"`
 	Tree    *string `json:"tree"`
 	Fenced  string  `json:"fenced"`
+	Msg     string  `json:"msg"`
 	Status  string  `json:"status"`
 	Version string  `json:"version"`
 }
